@@ -30,11 +30,13 @@ struct Model {
     check_distance: usize,
     max_behind: usize,
     catchup: usize,
+    timeout_ms: u64,
+    notify_ms: u64,
 }
 
 impl Model {
     fn new() -> Self {
-        Model { num_players: 2, handles: BTreeMap::new(), window: 8, delay: 0, fps: 60, desync: 0, sparse: false, check_distance: 2, max_behind: 10, catchup: 1 }
+        Model { num_players: 2, handles: BTreeMap::new(), window: 8, delay: 0, fps: 60, desync: 0, sparse: false, check_distance: 2, max_behind: 10, catchup: 1, timeout_ms: 2000, notify_ms: 500 }
     }
     fn handle_ok(kind: &Kind, h: usize, n: usize) -> bool {
         match kind {
@@ -87,6 +89,14 @@ impl Model {
                     return false;
                 }
                 self.max_behind = *m;
+                true
+            }
+            BCall::Timeout(t) => {
+                self.timeout_ms = *t;
+                true
+            }
+            BCall::Notify(t) => {
+                self.notify_ms = *t;
                 true
             }
             BCall::CatchupSpeed(s) => {
@@ -143,6 +153,8 @@ pub fn run(plan: &Plan, calls: &[BCall], start: &BStart) -> RunOut {
             BCall::CheckDistance(d) => Ok(bb.with_check_distance(*d)),
             BCall::MaxFramesBehind(m) => bb.with_max_frames_behind(*m),
             BCall::CatchupSpeed(s) => bb.with_catchup_speed(*s),
+            BCall::Timeout(t) => Ok(bb.with_disconnect_timeout(std::time::Duration::from_millis(*t))),
+            BCall::Notify(t) => Ok(bb.with_disconnect_notify_delay(std::time::Duration::from_millis(*t))),
         });
         match r {
             Err(p) => {
@@ -344,8 +356,8 @@ fn derive_plan(base: &Plan, m: &Model) -> Option<Plan> {
     p.cfg.fps = m.fps;
     p.cfg.sparse = m.sparse;
     p.cfg.desync_interval = if m.desync == 0 { 0 } else { m.desync - 1 };
-    p.cfg.timeout_ms = 2000;
-    p.cfg.notify_ms = 500;
+    p.cfg.timeout_ms = m.timeout_ms;
+    p.cfg.notify_ms = m.notify_ms;
     p.nodes = nodes;
     p.links = links;
     p.windows.clear();
@@ -355,5 +367,16 @@ fn derive_plan(base: &Plan, m: &Model) -> Option<Plan> {
     p.perturb.clear();
     p.horizon_us = 120 * per.max(1000) + 600_000;
     p.oracle = OracleCfg::default();
+    // in a third of the runs with a remote peer, that peer dies while the application of node 0
+    // hangs for longer than both deadlines (a coarse poll): whatever the two settings are, the
+    // first poll afterwards must cope
+    if n_peers >= 2 && mix(base.seed ^ 0xc16) % 3 == 0 {
+        let t_kill = 900_000 + mix(base.seed ^ 0xc17) % 600_000;
+        let hang = (m.timeout_ms.max(m.notify_ms) + 300) * 1000;
+        p.nodes[1].tick.stop_us = Some(t_kill);
+        p.nodes[0].tick.pauses.push((t_kill + 20_000, t_kill + 20_000 + hang));
+        p.horizon_us = p.horizon_us.max(t_kill + 20_000 + hang + 1_500_000);
+        p.scenario = "c16-accepted-configuration+remote-dies-while-host-hangs".into();
+    }
     Some(p)
 }
